@@ -77,6 +77,32 @@ int32_t psPemTryDecode(psPool_t *pool,
 
 # ifdef USE_PEM_DECODE
 
+/* strstr() confined to [hay, hayEnd): never reads at or beyond hayEnd.
+   Like strstr(), the search also stops at a NUL byte, so callers that
+   pass a C string together with its length see no change. */
+static char *pemStrnstr(const char *hay, const char *hayEnd,
+        const char *needle)
+{
+    size_t i, nlen = Strlen(needle);
+    const char *p;
+
+    if (hay == NULL || hayEnd == NULL)
+    {
+        return NULL;
+    }
+    for (p = hay; p < hayEnd && *p != '\0'; p++)
+    {
+        for (i = 0; i < nlen && p + i < hayEnd && p[i] == needle[i]; i++)
+        {
+        }
+        if (i == nlen)
+        {
+            return (char *) p;
+        }
+    }
+    return NULL;
+}
+
 psBool_t psPemCheckOk(const unsigned char *pemBuf,
         psSizeL_t pemBufLen,
         psPemType_t pemType,
@@ -85,12 +111,20 @@ psBool_t psPemCheckOk(const unsigned char *pemBuf,
         psSizeL_t *pemlen)
 {
     char *start, *end;
+    const char *buf = (const char *) pemBuf;
+    const char *bufEnd;
+
+    if (pemBuf == NULL)
+    {
+        return PS_FALSE;
+    }
+    bufEnd = buf + pemBufLen;
 
     /* Check header and encryption parameters. */
-    if (((start = Strstr((char *) pemBuf, "-----BEGIN")) != NULL) &&
-            ((start = Strstr((char *) pemBuf, "PRIVATE KEY-----")) != NULL) &&
-            ((end = Strstr(start, "-----END")) != NULL) &&
-            (Strstr(end, "PRIVATE KEY-----") != NULL))
+    if (((start = pemStrnstr(buf, bufEnd, "-----BEGIN")) != NULL) &&
+            ((start = pemStrnstr(buf, bufEnd, "PRIVATE KEY-----")) != NULL) &&
+            ((end = pemStrnstr(start, bufEnd, "-----END")) != NULL) &&
+            (pemStrnstr(end, bufEnd, "PRIVATE KEY-----") != NULL))
     {
         if (pemType != PEM_TYPE_KEY &&
                 pemType != PEM_TYPE_PRIVATE_KEY &&
@@ -99,15 +133,11 @@ psBool_t psPemCheckOk(const unsigned char *pemBuf,
             return PS_FALSE;
         }
         start += Strlen("PRIVATE KEY-----");
-        while (*start == '\x0d' || *start == '\x0a')
-        {
-            start++;
-        }
     }
-    else if (((start = Strstr((char *) pemBuf, "-----BEGIN")) != NULL) &&
-            ((start = Strstr((char *) pemBuf, "PUBLIC KEY-----")) != NULL) &&
-            ((end = Strstr(start, "-----END")) != NULL) &&
-            (Strstr(end, "PUBLIC KEY-----") != NULL))
+    else if (((start = pemStrnstr(buf, bufEnd, "-----BEGIN")) != NULL) &&
+            ((start = pemStrnstr(buf, bufEnd, "PUBLIC KEY-----")) != NULL) &&
+            ((end = pemStrnstr(start, bufEnd, "-----END")) != NULL) &&
+            (pemStrnstr(end, bufEnd, "PUBLIC KEY-----") != NULL))
     {
         if (pemType != PEM_TYPE_PUBLIC_KEY &&
                 pemType != PEM_TYPE_KEY &&
@@ -116,15 +146,11 @@ psBool_t psPemCheckOk(const unsigned char *pemBuf,
             return PS_FALSE;
         }
         start += Strlen("PUBLIC KEY-----");
-        while (*start == '\x0d' || *start == '\x0a')
-        {
-            start++;
-        }
     }
-    else if (((start = Strstr((char *) pemBuf, "-----BEGIN")) != NULL) &&
-            ((start = Strstr((char *) pemBuf, "CERTIFICATE-----")) != NULL) &&
-            ((end = Strstr(start, "-----END")) != NULL) &&
-            (Strstr(end, "CERTIFICATE-----") != NULL))
+    else if (((start = pemStrnstr(buf, bufEnd, "-----BEGIN")) != NULL) &&
+            ((start = pemStrnstr(buf, bufEnd, "CERTIFICATE-----")) != NULL) &&
+            ((end = pemStrnstr(start, bufEnd, "-----END")) != NULL) &&
+            (pemStrnstr(end, bufEnd, "CERTIFICATE-----") != NULL))
     {
         if (pemType != PEM_TYPE_CERTIFICATE &&
                 pemType != PEM_TYPE_ANY)
@@ -133,14 +159,20 @@ psBool_t psPemCheckOk(const unsigned char *pemBuf,
         }
 
         start += Strlen("CERTIFICATE-----");
-        while (*start == '\x0d' || *start == '\x0a')
-        {
-            start++;
-        }
     }
     else
     {
         return PS_FALSE;
+    }
+    if (end < start)
+    {
+        /* "-----END" found inside the header label ("KEY-----END"):
+           there is no body, and (end - start) would be negative. */
+        return PS_FALSE;
+    }
+    while (start < end && (*start == '\x0d' || *start == '\x0a'))
+    {
+        start++;
     }
 
     if (pemlen != NULL)
@@ -176,7 +208,7 @@ int32_t psPemDecode(psPool_t *pool,
     char *start, *end;
     int32 rc;
     psSizeL_t PEMlen = 0;
-    const char *keyBuf;
+    const char *keyBuf, *keyBufEnd;
     psSize_t outlenPsSize;
 
     start = end = NULL;
@@ -193,8 +225,9 @@ int32_t psPemDecode(psPool_t *pool,
     }
 
     keyBuf = (const char *)keyBufIn;
-    if (Strstr((char *) keyBuf, "Proc-Type:") &&
-        Strstr((char *) keyBuf, "4,ENCRYPTED"))
+    keyBufEnd = keyBuf + keyBufLen;
+    if (pemStrnstr(keyBuf, keyBufEnd, "Proc-Type:") &&
+        pemStrnstr(keyBuf, keyBufEnd, "4,ENCRYPTED"))
     {
 #  if defined(USE_PKCS5) && defined(USE_PBKDF1)
         if (password == NULL)
@@ -202,19 +235,27 @@ int32_t psPemDecode(psPool_t *pool,
             psTraceCrypto("No password given for encrypted private key file\n");
             return PS_ARG_FAIL;
         }
-        if ((start = Strstr((char *) keyBuf, des3encryptHeader)) != NULL)
+        if ((start = pemStrnstr(keyBuf, keyBufEnd, des3encryptHeader)) != NULL)
         {
             start += Strlen(des3encryptHeader);
             encrypted = 1;
-            /* we assume here that header points to at least 16 bytes of data */
+            /* the IV is 16 hex digits: they must be inside the buffer */
+            if (keyBufEnd - start < 2 * DES3_IVLEN)
+            {
+                return PS_PARSE_FAIL;
+            }
             tmp = psHexToBinary((unsigned char *) start, cipherIV, DES3_IVLEN);
         }
-        else if ((start = Strstr((char *) keyBuf, aes128encryptHeader))
+        else if ((start = pemStrnstr(keyBuf, keyBufEnd, aes128encryptHeader))
                  != NULL)
         {
             start += Strlen(aes128encryptHeader);
             encrypted = 2;
-            /* we assume here that header points to at least 32 bytes of data */
+            /* the IV is 32 hex digits: they must be inside the buffer */
+            if (keyBufEnd - start < 2 * 16)
+            {
+                return PS_PARSE_FAIL;
+            }
             tmp = psHexToBinary((unsigned char *) start, cipherIV, 16);
         }
         else
@@ -229,6 +270,11 @@ int32_t psPemDecode(psPool_t *pool,
             return PS_FAILURE;
         }
         start += tmp;
+        if (end < start)
+        {
+            /* DEK-Info header located after the end of the PEM body */
+            return PS_PARSE_FAIL;
+        }
         if (psPkcs5Pbkdf1((unsigned char *) password, Strlen(password),
                 cipherIV, 1, (unsigned char *) passKey) < 0)
         {
@@ -303,6 +349,7 @@ psRes_t psPemCertBufToList(psPool_t *pool,
     psList_t *front, *prev, *current;
     unsigned char *start, *end, *endTmp;
     const unsigned char *chFileBuf;
+    const char *bufEnd;
     unsigned char l;
     int n = 0;
     int32_t rc;
@@ -323,13 +370,15 @@ psRes_t psPemCertBufToList(psPool_t *pool,
     l = Strlen("CERTIFICATE-----");
     Memset(current, 0x0, sizeof(psList_t));
     chFileBuf = buf;
+    bufEnd = (const char *) buf + len;
     while (len > 0)
     {
         if (
-            ((start = (unsigned char *) Strstr((char *) chFileBuf, "-----BEGIN")) != NULL) &&
-            ((start = (unsigned char *) Strstr((char *) chFileBuf, "CERTIFICATE-----")) != NULL) &&
-            ((end = (unsigned char *) Strstr((char *) start, "-----END")) != NULL) &&
-            ((endTmp = (unsigned char *) Strstr((char *) end, "CERTIFICATE-----")) != NULL)
+            ((start = (unsigned char *) pemStrnstr((const char *) chFileBuf, bufEnd, "-----BEGIN")) != NULL) &&
+            ((start = (unsigned char *) pemStrnstr((const char *) chFileBuf, bufEnd, "CERTIFICATE-----")) != NULL) &&
+            ((end = (unsigned char *) pemStrnstr((const char *) start, bufEnd, "-----END")) != NULL) &&
+            ((endTmp = (unsigned char *) pemStrnstr((const char *) end, bufEnd, "CERTIFICATE-----")) != NULL) &&
+            (end >= start + l) /* "-----END" may not overlap the header label */
             )
         {
             n++;
@@ -348,8 +397,9 @@ psRes_t psPemCertBufToList(psPool_t *pool,
             }
             current->len = (uint16_t) (end - start);
             end = endTmp + l;
-            while (*end == '\x0d' || *end == '\x0a' || *end == '\x09'
-                   || *end == ' ')
+            while ((const char *) end < bufEnd &&
+                   (*end == '\x0d' || *end == '\x0a' || *end == '\x09'
+                    || *end == ' '))
             {
                 end++;
             }
